@@ -28,6 +28,10 @@ def quantum_of(model):
     return 10.0 ** -(int(math.log10(model.monetary_factor)) + 1)
 
 
+def oracles_quantum(model):
+    return quantum_of(model)
+
+
 def rank(status):
     return {"pending": 0, "happening": 1, "rebuilding": 2, "recovering": 2, "finished": 3}[status]
 
@@ -176,6 +180,24 @@ def c09_step(tr, st, c):
     t = st["t"]
     model = tr.model
     q = quantum_of(model)
+    pre_ph = st["phases"].get("events_pre")
+    if pre_ph and pre_ph["post"] is not None and not pre_ph.get("exc"):
+        # an event only finishes through its recovery function reaching zero (ledger phase), never by the calendar
+        for i, (a, b) in enumerate(zip(pre_ph["pre"]["trackers"], pre_ph["post"]["trackers"])):
+            if a["status"] == "recovering" and b["status"] != "recovering":
+                out.append(viol("C09", t, f"event {i} left the recovering stage outside its recovery function ({b['status']})",
+                                damage_left=None if b["dmg"] is None else float(np.max(b["dmg"]))))
+        # capacity loss in force = largest arbitrary loss of the events in force; nothing once they are finished
+        N = c["K"].shape[0]
+        arb = np.zeros(N)
+        for trk in pre_ph["post"]["trackers"]:
+            if trk["status"] in ("happening", "recovering") and trk["arb"] is not None:
+                arb = np.maximum(arb, trk["arb"])
+        got = pre_ph["post"]["econ"]["arbDelta"]
+        if got is not None and not np.allclose(got, arb, rtol=1e-9, atol=1e-15):
+            j = int(np.argmax(np.abs(got - arb)))
+            out.append(viol("C09", t, "arbitrary capacity loss in force differs from the damages of the events in force (a finished event contributes no loss)",
+                            cell=j, in_force=float(got[j]), expected=float(arb[j])))
     ph = st["phases"].get("events_post")
     if not ph or ph["post"] is None or ph.get("exc"):
         return out
@@ -253,6 +275,41 @@ def c10_step(tr, st, c):
                 out.append(viol("C10", t, f"event {i}: wrong stage {st_b} for kind {a['kind']}"))
             if t >= occ + dur and st_b == "recovering" and a["kind"] == "rebuild":
                 out.append(viol("C10", t, f"event {i}: wrong stage {st_b} for kind {a['kind']}"))
+    # the shock of an event is not in force before its occurrence: destroyed capital and arbitrary loss
+    # seen by the economy are those of the events in force only
+    if ph and ph["post"] is not None and not ph.get("exc"):
+        post = ph["post"]
+        N = c["K"].shape[0]
+        lost = np.zeros(N)
+        for trk in post["trackers"]:
+            if trk["status"] in ("happening", "rebuilding", "recovering") and trk["dmg"] is not None:
+                lost += trk["dmg"]
+        got = post["econ"]["lost"]
+        if got is not None and not np.allclose(got, lost, rtol=1e-9, atol=1e-12):
+            j = int(np.argmax(np.abs(got - lost)))
+            pend = [i for i, trk in enumerate(post["trackers"]) if trk["status"] == "pending"]
+            out.append(viol("C10", t, "destroyed capital in force differs from the damages of the events in force (pending events: "
+                            f"{pend})", cell=j, in_force=float(got[j]), expected=float(lost[j])))
+    # recovery starts at occurrence + duration: at the end of that step the damage is the recovery
+    # function at zero completed steps, i.e. still the initial damage
+    pp = st["phases"].get("events_post")
+    if pp and pp["post"] is not None and not pp.get("exc") and dt == 1:
+        for i, (a, b) in enumerate(zip(pp["pre"]["trackers"], pp["post"]["trackers"])):
+            if a["kind"] == "rebuild" or t != a["occ"] + a["dur"]:
+                continue
+            fld, d0 = ("arb", "arb0") if a["kind"] == "arbitrary" else ("dmg", "dmg0")
+            D = a[d0]
+            evd = tr.sc["events"][i] if i < len(tr.sc["events"]) else None
+            if evd is not None and evd.get("curve") in ("linear", "convexe", "convexe noscale", "concave"):
+                with np.errstate(all="ignore"):
+                    D = ref_curve(evd["curve"], 0, a[d0], evd["recovery_tau"])     # concave with tau = 1 is 0 at once
+                D = np.where(np.isfinite(D), D, 0.0)
+            qq = 1e-6 if a["kind"] == "arbitrary" else oracles_quantum(tr.model)
+            gotd = b[fld] if b[fld] is not None else np.zeros_like(D)
+            if (np.abs(gotd - D) > qq / 2 * (1 + 1e-6) + 1e-12 * np.abs(D)).any():
+                j = int(np.argmax(np.abs(gotd - D)))
+                out.append(viol("C10", t, f"event {i}: recovery did not start at occurrence + duration = {t} (damage at the end of that step is not the initial damage)",
+                                cell=j, damage=float(gotd[j]), initial=float(D[j])))
     # never backwards within the step
     seq = []
     for name in ("events_pre", "events_post"):
